@@ -194,6 +194,7 @@ type Sim struct {
 	// harness-visible event in between (code that polls with time.After in a loop)
 	idleCfg    uint64
 	idleEvents uint64
+	idleSeqs   [4]uint64
 	idleRepeat int
 	// PeriodicIdle: the run ended because the system only polled (see Run)
 	PeriodicIdle bool
@@ -626,6 +627,17 @@ func (s *Sim) partnerFor(t *Task, p uintptr, tSends bool) (partner *Task, parm i
 	return nil, -1
 }
 
+// olderEventPending reports whether a live timer event armed at or before sequence number seq is
+// still in the heap.
+func (s *Sim) olderEventPending(seq uint64) bool {
+	for _, ev := range s.timers {
+		if !ev.dead && ev.seq <= seq {
+			return true
+		}
+	}
+	return false
+}
+
 // configHash digests where every live task is parked and how full the channels they wait on are.
 func (s *Sim) configHash() uint64 {
 	h := uint64(1469598103934665603)
@@ -751,7 +763,14 @@ func (s *Sim) Run(main func()) Result {
 			} else {
 				s.idleCfg, s.idleEvents, s.idleRepeat = cfgH, s.events, 0
 			}
-			if s.idleRepeat >= 24 {
+			// ... unless a timer that was not armed by the last few turns of that loop is still
+			// pending (a pause of the workload, a stalled peer, a long timeout of the code under
+			// test): when it fires something new happens, the run is not over. idleSeqs holds
+			// the timer sequence numbers seen at the last four idle moments.
+			older := s.olderEventPending(s.idleSeqs[0])
+			copy(s.idleSeqs[:], s.idleSeqs[1:])
+			s.idleSeqs[len(s.idleSeqs)-1] = s.seq
+			if s.idleRepeat >= 24 && !older {
 				s.EndKind = "quiescent"
 				s.PeriodicIdle = true
 				break
@@ -763,6 +782,13 @@ func (s *Sim) Run(main func()) Result {
 			break
 		}
 		if s.Steps >= s.cfg.MaxSteps {
+			if s.idleRepeat >= 24 {
+				// the step budget ran out while the system was only cycling through a polling
+				// loop, waiting for a far-away timer: idle, not stuck
+				s.EndKind = "quiescent"
+				s.PeriodicIdle = true
+				break
+			}
 			s.EndKind = "stepcap"
 			break
 		}
